@@ -598,7 +598,17 @@ func (in *Interp) conv(dst, src types.Type, v Value) Value {
 			// []rune
 			cs, ok := s.Concrete()
 			if !ok {
-				panic(unsupported{"symbolic string to []rune"})
+				// symbolic text: supported when every byte is ASCII on this
+				// path (one rune per byte); multi-byte sequences are not decoded
+				bs := in.strBytes(s)
+				out := in.makeSlice(d.Elem(), len(bs), len(bs))
+				for i, b := range bs {
+					if !in.Branch(c.Ult(b, c.BV(0x80, 8))) {
+						panic(unsupported{"symbolic non-ASCII string to []rune"})
+					}
+					out.Arr.Elems[i] = c.ZExt(b, 32)
+				}
+				return out
 			}
 			rs := []rune(cs)
 			out := in.makeSlice(d.Elem(), len(rs), len(rs))
